@@ -13,7 +13,14 @@ def main():
     os.environ["LOGURU_VERIF"] = "1"
     try:
         from harness import core
-        mod = importlib.import_module("harness." + prop.lower())
+        try:
+            mod = importlib.import_module("harness." + prop.lower())
+        except core.BINDING_ERRORS:
+            tb = traceback.format_exc()
+            if "loguru" not in tb:
+                raise
+            print(tb, file=sys.stderr)
+            sys.exit(core.unbound(prop, sys.argv[2:], tb))
         core.main(mod, sys.argv[2:])
     except SystemExit:
         raise
